@@ -26,7 +26,7 @@ namespace {
 
   //! tolerance for operations that are exact in the tested type: only the
   //! rounding of the long double oracle itself (sqrt2 factors of the bases)
-  inline R exactTol(R n) { return 64 * static_cast<R>(std::numeric_limits<R>::epsilon()) * n; }
+  inline R exactTol(R n) { return 1024 * static_cast<R>(std::numeric_limits<R>::epsilon()) * n; }
 
   //! the property's non-triviality rule for a matrix in dimension N
   bool nonsym(const M3& m, int N) {
